@@ -3,7 +3,7 @@
    run guarantees, that the library's own path check and status constructor mean what the rule assumes, and that the
    single-tree planner skeleton can only produce admissible reports — for every history of extension attempts. *)
 From Coq Require Import List ZArith Bool.
-From OmplV Require Import LedgerModel LedgerProofs MotionModel MotionProofs EitModel EitProofs RrtModel RrtProofs.
+From OmplV Require Import LedgerModel LedgerProofs MotionModel MotionProofs EitModel EitProofs RrtModel RrtProofs RrtConnectModel RrtConnectProofs.
 Import ListNotations.
 Local Open Scope Z_scope.
 
@@ -77,6 +77,31 @@ Theorem C01_rrt_reports_only_real_paths :
   end.
 Proof. exact rrt_solve_spec. Qed.
 
+(* geometric::RRTConnect as a whole (RrtConnectModel.rc_solve: the two trees grown alternately, goal states entering the goal tree
+   on demand, growTree with its three outcomes, the connect loop, the junction of the trees, the approximate solution kept for
+   the start tree), for every space, pair of validators (start tree: checkMotion(near, new); goal tree: isValid(new) and
+   checkMotion(new, near)), goal set and stream of samples: the start tree hangs off start states by motions validated
+   parent -> child, the goal tree off goal states by motions validated child -> parent; an exact report starts at a start
+   state, ends at a goal state, and every consecutive pair was validated in the direction it is traversed; an approximate
+   report is a chain of the start tree and the reported difference is its last state's goal distance *)
+Theorem C01_rrtconnect_reports_only_real_paths :
+  forall (St D : Type) dist (dlt : D -> D -> bool) steer mvS mvG gdist goals (dflt : St),
+  (forall n r d, steer n r = Some (d, true) -> d = r) ->
+  forall starts fuel samples, starts <> [] ->
+  let s := fst (rc_solve St D dist dlt steer mvS mvG gdist goals dflt fuel starts samples) in
+  RrtConnectProofs.TInv St mvS mvG true starts (c_ts St D s) /\ RrtConnectProofs.TInv St mvS mvG false goals (c_tg St D s) /\
+  match snd (rc_solve St D dist dlt steer mvS mvG gdist goals dflt fuel starts samples) with
+  | Some (path, false, _) =>
+      path <> [] /\ In (hd dflt path) starts /\ In (last path dflt) goals /\
+      consecutive (fun a b => mvS a b = true \/ mvG a b = true) path
+  | Some (path, true, Some dd) =>
+      path <> [] /\ In (hd dflt path) starts /\ consecutive (fun a b => mvS a b = true) path /\ dd = gdist (last path dflt)
+  | Some (_, true, None) => False
+  | None => True
+  end.
+Proof. exact rc_solve_spec. Qed.
+
+Print Assumptions C01_rrtconnect_reports_only_real_paths.
 Print Assumptions C01_rrt_reports_only_real_paths.
 Print Assumptions C01_admission_sound.
 Print Assumptions C01_status_constructor.
@@ -116,4 +141,16 @@ Example C01_rrt_nonvacuous :
     = ([(0%Z, None); (3%Z, Some 0%nat); (2%Z, Some 1%nat); (6%Z, Some 1%nat)], Some ([0; 3; 6]%Z, true, 4%Z)) /\
   rrt_solve Z Z (fun a b => Z.abs (a - b)) Z.ltb zsteer zmv (fun s => (s =? 10)%Z) (fun s => Z.abs (s - 10)) 10%Z 0%Z [8%Z] [false; true] [20; 0]%Z
     = ([(8%Z, None); (11%Z, Some 0%nat); (10%Z, Some 1%nat)], Some ([8; 11; 10]%Z, false, 0%Z)).
+Proof. vm_compute. split; reflexivity. Qed.
+
+(* RRTConnect on the integer line (steps of at most 3): start 0, goal 10, first sample 4: the start tree reaches 3, the goal tree
+   connects to it; with a wall between 20 and 21 and the goal at 30 only an approximate start-tree path can be reported *)
+Definition zsteer2 (n r : Z) : option (Z * bool) :=
+  if (3 <? Z.abs (r - n))%Z then Some ((if (n <? r)%Z then n + 3 else n - 3)%Z, false) else Some (r, true).
+Definition zmvw (a b : Z) : bool := negb ((Z.min a b <=? 20) && (21 <=? Z.max a b))%Z.
+Example C01_rrtconnect_nonvacuous :
+  snd (rc_solve Z Z (fun a b => Z.abs (a - b)) Z.ltb zsteer2 zmvw zmvw (fun s => Z.abs (s - 10)) [10%Z] 0%Z 50 [0%Z] [4; 9; 2]%Z)
+    = Some ([0; 3; 4; 7; 10]%Z, false, None) /\
+  snd (rc_solve Z Z (fun a b => Z.abs (a - b)) Z.ltb zsteer2 zmvw zmvw (fun s => Z.abs (s - 30)) [30%Z] 0%Z 50 [0%Z] [4; 29; 12]%Z)
+    = Some ([0; 3; 6; 9; 12; 15; 18]%Z, true, Some 12%Z).
 Proof. vm_compute. split; reflexivity. Qed.
